@@ -17,7 +17,7 @@ func init() {
 		ID: "C12", Fn: c12,
 		Rule:        "one evaluation = one judged protocol step of a generated protocol-valid UCI session fed to the real UciHandler.Loop through pipes (every line sent/received time-stamped): exactly one bestmove per go at every quiescent point; no bestmove of an infinite/ponder search before its stop (or ponderhit); final 'info depth' == limit for depth searches; readyok for every isready also while searching; bestmove after stop within allowance; handler position (verif accessor) == refchess replay of the position command; go depth after ucinewgame == same go on a fresh handler; Print Config before/after every setoption differs in exactly the named field; sessions include zero-delay go-after-bestmove, stop right after go, isready storms, ponderhit early/late; distinct = distinct (session, step) scripts",
 		Assumptions: []string{"fresh engine for the ucinewgame clause = a newly created UciHandler in the same process (configuration is process-global)", "stop-promptness allowance 700 ms under parallel load, exceedances re-run serially"},
-		Required:    []string{"sessions", "go_commands", "bestmoves", "go_depth", "go_infinite", "go_ponder_stop", "go_ponderhit", "go_ponder_without_clock", "go_movetime", "go_clock", "isready_during_search", "position_checks", "position_with_moves", "newgame_equalities", "setoption_checks", "zero_delay_go_after_bestmove", "stop_right_after_go"},
+		Required:    []string{"sessions", "go_commands", "bestmoves", "go_depth", "go_infinite", "go_ponder_stop", "go_ponderhit", "go_ponder_without_clock", "go_movetime", "go_clock", "isready_during_search", "position_checks", "position_with_moves", "newgame_equalities", "newgame_while_hash_off", "setoption_checks", "zero_delay_go_after_bestmove", "stop_right_after_go"},
 		MinEvals:    2000,
 		TimeoutQ:    25 * 60e9,
 		TimeoutT:    150 * 60e9,
@@ -482,8 +482,28 @@ func (x *c12ctx) newGameEquality() {
 		}
 		return l, lastScore(seen), ok
 	}
-	// dirty the tables with a few searches, then ucinewgame
+	// dirty the tables with a deeper search on the same position, then ucinewgame - in a third
+	// of the cases received while the hash table is switched off (and switched on again after
+	// it): what the earlier game left behind must be gone whatever the options were meanwhile
+	variant := x.r.Intn(3)
+	x.u.send(fmt.Sprintf("go depth %d", d+2))
+	if _, ok, seen := x.u.waitFor(isBestmove, 60*time.Second); !ok {
+		x.dead = true
+		return
+	} else {
+		x.goes++
+		x.rep.Inc("go_commands")
+		x.rep.Inc("bestmoves")
+		x.note(seen)
+	}
+	if variant == 1 {
+		x.u.send("setoption name Use_Hash value false")
+		x.rep.Inc("newgame_while_hash_off")
+	}
 	x.u.send("ucinewgame")
+	if variant == 1 {
+		x.u.send("setoption name Use_Hash value true")
+	}
 	x.u.send(x.posCmd)
 	b1, s1, ok := run(x.u, true)
 	if !ok {
@@ -500,7 +520,7 @@ func (x *c12ctx) newGameEquality() {
 	x.rep.Inc("newgame_equalities")
 	if ok2 && (b1 != b2 || s1 != s2) {
 		x.rep.Viol("ucinewgame:differs-from-fresh-engine", fmt.Sprintf("after ucinewgame 'go depth %d' on %s gives [%s | score %s], a fresh engine gives [%s | score %s]", d, x.board.FEN(), b1, s1, b2, s2),
-			x.payload(map[string]interface{}{"position": x.posCmd, "depth": d, "config": x.u.printConfig()}))
+			x.payload(map[string]interface{}{"position": x.posCmd, "depth": d, "hash_off_while_newgame": variant == 1, "config": x.u.printConfig()}))
 	}
 	x.quiescent()
 }
